@@ -2,6 +2,7 @@ import Setec.Proofs.DB
 import Setec.Spec.DBMon
 import Setec.Proofs.Wire
 import Setec.Generated.Facts
+import Setec.Proofs.MonitorsSound
 /-!
 # C09 - conditional get reports not-modified exactly when nothing changed
 
@@ -93,5 +94,14 @@ as the same name, version and UpdateIfChanged flag -/
 theorem wire_get_request_roundtrip (name : String) (version : Nat) (uic : Bool) :
     Wire.readGetReq (Wire.renderGetReq name version uic) = some (name, version, uic) :=
   Wire.readGetReq_render name version uic
+
+/-! ### the monitor clause is the specification's own behaviour -/
+
+/-- The clause `cond` - the four outcomes, exactly - as evaluated by the driver on the real code's
+answers, holds of the specification's own step in every state that satisfies the store
+invariant (every reachable one). -/
+theorem monitor_sound (kv : KV.KV) (c : DB.Caller) (op : DB.Op) (aok sok : Bool) (h : KV.Inv kv) :
+    DBMon.c09_cond (MonSound.obsOf kv c op aok sok) = true :=
+  MonSound.c09_cond_sound kv c op aok sok h
 
 end Setec.C09
